@@ -72,8 +72,12 @@ CLAIMED = {
              '(successful translations are compared exactly; every long-descriptor-format FAULT reaches the emulator\'s documented '
              'mock hook tlb_lookup_came_from_cache_maintenance, so only the decision fault / no fault is compared, not DFSR); '
              'MC_LPAE model-checks the long-descriptor walk (walk shapes x T0SZ x EPD0 x APTable x AP x AF x indices: fault decision, '
-             'hierarchical permission, output address by block size; 3.5e5 states); stage 2 translation and faults taken to Hyp mode are reported '
-             'as unmodelled and not claimed; with SCTLR.TRE = 0 the emulator reaches its documented mock hook (outcome notimpl); memory '
+             'hierarchical permission, output address by block size; 3.5e5 states); stage 2 (Virtualization Extensions) is specified '
+             '(WalkS2 with VTCR.SL0/T0SZ and VTTBR, S2AttrDecode, HAP permissions, CombineS1S2Desc, stage-2 translation of the stage-1 '
+             'walk\'s own descriptor addresses with HCR.PTW) and exercised with random stage-2 tables under HCR.VM = 1 (stage 1 off with '
+             'HCR.DC both ways, or short-descriptor): successful two-stage translations are compared exactly (address, combined attributes), '
+             'stage-2 faults only as fault / no fault (they reach the emulator\'s unimplemented Hyp-syndrome hooks); Hyp-mode stage 1 is '
+             'reported as unmodelled and not claimed; with SCTLR.TRE = 0 the emulator reaches its documented mock hook (outcome notimpl); memory '
              'attributes other than the memory type used for alignment faults are not compared.',
         technique='TLC model checking of the VMSA spec + TLC trace validation of translate_address() and loads/stores',
         ref='DESIGN.md §4 C15'),
@@ -86,7 +90,8 @@ CLAIMED = {
              'is replayed on real ArmV6 objects in one Python process without re-loading configurations, and every step is '
              'judged by TLC against the specification under that instance\'s own configuration. Determinism: deep-copied '
              'snapshots and instances with differing prior histories must produce identical step deltas (pair events judged '
-             'by TLC).',
+             'by TLC). The four configurations also differ in reset behaviour (VBAR reset value, IMPLEMENTATION DEFINED reset vector): '
+             'take_reset() of an instance after the other instance was created / stepped / reset must give the same delta as alone.',
         note='two instances, 2-3 steps each, five small programs; configuration influence through the direct Registers API '
              '(take_*_exception called without emulate_cycle) is outside the stepping interface of the property.',
         technique='TLC model checking of the multi-instance spec + replay of every TLC schedule on the implementation judged by TLC',
@@ -95,13 +100,15 @@ CLAIMED = {
     'C08': dict(
         text='MC_IT: TLC runs the whole specified machine (real fetch from memory, decode, condition, execute, IT advance, '
              'IRQ entry, exception return) on IT fc,mask + five register-incrementing instructions for every legal (firstcond, '
-             'mask) x NZCV x 3 instruction menus (16-bit ADDS encodings, 32-bit ADD.W, a flag-setting CMP) x IRQ position, '
+             'mask) x NZCV x 7 instruction menus (16-bit ADDS encodings, 32-bit ADD.W, a flag-setting CMP, SVC slots whose handler returns by '
+             'MOVS PC,LR, an alignment-faulting LDR whose handler repairs the pointer and re-executes it) x IRQ position, '
              'deadlock-checked, and requires the final registers the IT instruction\'s declarative description predicts, the '
-             'block condition at every step, IT = 0 in the handler and after the block. Every scenario TLC finished (quick: every '
+             'block condition at every step, IT = 0 in every handler and after the block, SPSR_svc.IT = the state advanced past the '
+             'SVC, SPSR_abt.IT = the state of the aborting instruction itself, SVC / abort taken exactly when the slot\'s condition holds. Every scenario TLC finished (quick: every '
              '6th) is assembled into RAM and single-stepped on the real code (IRQ via take_physical_irq_exception, return by SUBS '
              'PC,LR,#4); TLC judges every step on the full state; plus random IT-block programs.',
-        note='menus are fixed instruction shapes; exceptions other than IRQ at block positions are covered by C11/C12 events; '
-             'exception return inside an IT block is treated as unsure.',
+        note='menus are fixed instruction shapes (quick tier: 5 of the 7 menus, 4 flag values); UDF inside a block is not a menu item '
+             '(UNDEFINED-or-NOP under a failed condition is not exact).',
         technique='TLC model checking of the machine spec on IT programs + replay of TLC scenarios on the implementation judged by TLC',
         ref='DESIGN.md §4 C08'),
     'C12': dict(
@@ -154,7 +161,11 @@ CLAIMED = {
              'unprivileged T forms) and ExecLDREX/ExecSTREX the exclusive forms (B/H/word/D) for ARM, 16-bit and 32-bit Thumb on top of Mem.tla (MemU/MemA, endianness, alignment '
              'policy); random words x P/U/W x registers x base addresses in RAM, at 0xFFFFFFxx and wrapping x alignment 0..3 x '
              'CPSR.E x SCTLR.A/U x arch 6/7 are executed by emulate_cycle() and the full post-state (registers, write-back, '
-             'every memory byte, abort bookkeeping) is judged by TLC.',
+             'every memory byte, abort bookkeeping) is judged by TLC. MC_LS (TLC): the whole specified machine runs the load/store '
+             'encodings x offset / pre- / post-indexed x U x affine basis of the offset field x shifted register offsets x bases in RAM, '
+             'unaligned, at 0xFFFFFF80 and 0xFFFFFFFC (wrap) and is compared with the property wording written without the memory '
+             'layer (address arithmetic mod 2^32, little-endian bytes of a property-side RAM image, sign extension as subtraction, '
+             'byte-exact store footprint, write-back, PC load, frame); every one of its ~12.7k scenarios is then executed by emulate_cycle().',
         note='sampled operands; exclusive stores are specified as the emulator\'s stub monitors behave (checks, no store, status 1: '
              'a permitted outcome; success is not modelled); SWP/SWPB are envelope-only; UNKNOWN results of pre-v7 '
              'unaligned accesses are don\'t-care; word stores of SP through the T32 imm8 form are treated as unsure.',
@@ -175,8 +186,14 @@ CLAIMED = {
              'PC-writing ALU/load forms with BranchWritePC/BXWritePC/ALUWritePC/LoadWritePC; Arm!StepF advances the PC by the '
              'instruction length otherwise. Random offsets over all sign/size combinations, instruction addresses in low RAM '
              'and at 0xFFFFFFxx, arch 4..7, both instruction sets, are executed by emulate_cycle(); PC, LR, T and the rest of '
-             'the state are judged by TLC. PC advance is additionally part of every exact verdict of C01-C03.',
-        note='offsets are sampled, not enumerated (the offset formation is affine); BXJ is not specified.',
+             'the state are judged by TLC. PC advance is additionally part of every exact verdict of C01-C03. MC_BR (TLC): the whole '
+             'specified machine runs every branch encoding over the affine basis of its offset fields (B T1: every condition x every '
+             'NZCV) at instruction addresses 0, 0x40, 0x42, 0x80000000 and just below 2^32 and is compared with the wording written '
+             'arithmetically (offsets as signed integers from field weights): target, link value, instruction-set selection, '
+             'alignment, PC reads (+8 / +4), TBB/TBH with a register and with the PC as table base, frame; every one of its ~18k '
+             'scenarios is then executed by emulate_cycle() with a real fetch.',
+        note='offsets are sampled on the affine basis and at random, not enumerated (the offset formation is affine); the CBZ known '
+             'finding is re-observed on the MC_BR scenarios.',
         technique='TLA+ machine specification + TLC trace validation',
         ref='DESIGN.md §4 C04'),
     'C11': dict(
@@ -231,7 +248,9 @@ CLAIMED = {
              'Every TLC-generated behaviour (BFS depth 2 + simulated depth 8) is replayed on the real Registers object '
              'comparing all 34+7 cells and public reads after each action. Range: Trace_Step evaluates "all registers, '
              'CPSR, SPSRs, ELR in 0..2^32-1" on every event of wide sweeps with code and pointers at both ends of the '
-             'address space.',
+             'address space. Bank-crossing instructions (RFE / SRS with write-back on every base register, LDM/STM user registers, LDM '
+             'exception return, CPS / MSR mode changes, SUBS PC,LR) are executed from every mode with distinct values in all banks and '
+             'judged by TLC on all 34 registers and SPSRs.',
         note='register values are tokens in the banking model (banking is value-agnostic); the range invariant is checked '
              'on sampled instruction words and states; exception entry/return histories are covered by C11/C12.',
         technique='TLC model checking of the banking model + replay of TLC behaviours on the implementation + trace validation',
@@ -240,7 +259,10 @@ CLAIMED = {
         text='All 2^16 16-bit Thumb words (quick: one IT position per word; thorough: outside/inside/last), random and '
              'pattern-filled ARM and 32-bit Thumb words and random multi-instruction programs are stepped by the real '
              'emulate_cycle() in modes usr/svc/fiq/mon on PMSA v6, PMSA v7, VMSA v7 and no-security-extension '
-             'configurations with the MPU off and permissive-on; TLC (Trace_Step) accepts an event only if its outcome is '
+             'configurations with the MPU off and permissive-on, plus translate_address() and loads/stores through random short- and '
+             'long-descriptor page tables and against random MPU region tables, plus two-/three-step exception histories in the last '
+             'instruction slots below 2^32 (exception-raising instruction, then the handler\'s store of the return state on the same '
+             'object); TLC (Trace_Step) accepts an event only if its outcome is '
              'one of the specification\'s outcome classes (completed, undef, svc, smc, dabort, hyptrap, notimpl) - a '
              'host error has no action - and, where the step is specified, the right one. MC_Decode (TLC): StepF itself is total '
              'with an allowed outcome and a well-typed post-state on a skeleton holding every value of the class-selecting fields.',
@@ -256,8 +278,12 @@ CLAIMED = {
              'Thumb words, random/pattern ARM and Thumb-32 words and random programs started in User mode, secure and '
              'non-secure, MPU off/on, on four configurations. It needs no per-instruction oracle, so it covers '
              'unspecified and UNPREDICTABLE encodings too. MC_Decode (TLC): every exactly specified step of the specification '
-             'itself satisfies UserConfined from User mode on the decode skeleton (Props!SpecStepOK).',
-        note='32-bit words are sampled; unprivileged load/store variants against privileged-only regions are part of C14.',
+             'itself satisfies UserConfined from User mode on the decode skeleton (Props!SpecStepOK). Second sentence of the property: '
+             'LDRT/STRT/LDRBT/STRBT/LDRHT/STRHT/LDRSBT/LDRSHT words (ARM A1/A2, Thumb T1) and mem_u_unpriv_get/set calls are executed '
+             'in privileged modes with the MPU on against a region whose AP field separates privileged from User rights (or the '
+             'background region), aligned and unaligned under every SCTLR.A/U setting and both endiannesses, and judged exactly '
+             '(abort vs transfer, memory, write-back, DFSR/DFAR).',
+        note='32-bit words are sampled; the unprivileged-access events use PMSA regions (VMSA permissions are C15\'s).',
         technique='TLA+ confinement invariant evaluated by TLC trace validation on every User-mode event',
         ref='DESIGN.md §4 C19'),
 
